@@ -120,6 +120,45 @@ func leq(v, bound ssa.Value, depth int) bool {
 	if depth > 4 {
 		return false
 	}
+	// v = clamp(…, bound): a call of a function all of whose results are ≤ the parameter that receives bound
+	if call, isCall := flow.Peel(v).(*ssa.Call); isCall {
+		g := flow.StaticCallee(call)
+		if g == nil || g.Blocks == nil || call.Call.IsInvoke() {
+			return false
+		}
+		for j, a := range call.Call.Args {
+			if !sameVal(a, bound) || j >= len(g.Params) {
+				continue
+			}
+			pj := g.Params[j]
+			all, n := true, 0
+			flow.Instrs(g, func(in ssa.Instruction) {
+				ret, ok := in.(*ssa.Return)
+				if !ok || len(ret.Results) == 0 {
+					return
+				}
+				n++
+				for _, rv := range flow.SpillSources(ret.Results[0]) {
+					if leq(rv, pj, depth+1) {
+						continue
+					}
+					okEdge := false
+					for _, gd := range flow.Guards(ret) {
+						if r, ok := condRel(gd.If.Cond, gd.Taken); ok && relImpliesLeq(r, rv, pj) {
+							okEdge = true
+						}
+					}
+					if !okEdge {
+						all = false
+					}
+				}
+			})
+			if all && n > 0 {
+				return true
+			}
+		}
+		return false
+	}
 	ph, ok := v.(*ssa.Phi)
 	if !ok {
 		return false
